@@ -229,19 +229,50 @@ def rn3(prog):
     comp = [cs for cs in te.calls if cs.callee.name == "compress"]
     uo = [cs for cs in te.calls if cs.callee.name == "unique_or"]
     errs = []
-    if len(base) < 2 or len(comp) != 1 or len(uo) != 1:
-        errs.append("expected base-case ×2, compress ×1, unique_or ×1; found %d/%d/%d" % (len(base), len(comp), len(uo)))
+    # path rule: along every path to a return the calls come in the order  B [C B] [U]  (B = trimming base cases,
+    # C = compress, U = unique_or): never intern or compress untrimmed, never intern a compressed list untrimmed
+    tok = {}
+    for cs in base:
+        tok[cs.bb] = "B"
+    for cs in comp:
+        tok[cs.bb] = "C"
+    for cs in uo:
+        tok[cs.bb] = "U"
+    seqs = set()
+
+    def walk(b, seq, seen):
+        if len(seqs) > 200 or len(seen) > 400:
+            return
+        seq = seq + tok.get(b, "")
+        t = fn.blocks[b]["term"]
+        if t["k"] == "return":
+            seqs.add(seq)
+            return
+        for s_ in cfg.succ[b]:
+            if s_ in seen or fn.blocks[s_]["term"]["k"] == "unreachable" or fn.blocks[s_].get("cleanup"):
+                continue
+            walk(s_, seq, seen | {s_})
+    if not base or not comp or not uo:
+        errs.append("?expected the trimming base cases, compress and unique_or in canonicalize; found %d/%d/%d calls" % (len(base), len(comp), len(uo)))
+    elif fn.cfg.loop_headers:
+        errs.append("?canonicalize contains a loop")
     else:
-        if not cfg.dominates(base[0].bb, comp[0].bb):
-            errs.append("compress is not preceded by the trimming base cases")
-        if not cfg.dominates(base[0].bb, uo[0].bb):
-            errs.append("unique_or is not preceded by the trimming base cases")
-        # every path compress -> unique_or passes a base-case call
-        later = {b.bb for b in base[1:]}
-        if cfg.can_reach(comp[0].bb, uo[0].bb, avoid=later):
-            errs.append("after compression the trimming base cases can be skipped before interning")
-        if not has_fact(te, comp[0].bb, lambda c: c[0] == "field" and c[2] == "should_compress", True):
-            errs.append("compress is not conditional on the compression switch")
+        walk(0, "", {0})
+        import re as _re
+        for q in sorted(seqs):
+            if _re.fullmatch(r"B(CB)?U?", q):
+                continue
+            if q.startswith("C") or q.startswith("U"):
+                errs.append("a path %s the list before the trimming base cases (call order %s)" % ("compresses" if q[0] == "C" else "interns", q))
+            elif "CU" in q:
+                errs.append("after compression the trimming base cases can be skipped before interning (call order %s)" % q)
+            else:
+                errs.append("a path calls the canonicalisation steps in the order %s" % q)
+        if not any("C" in q for q in seqs):
+            errs.append("no path compresses")
+        for cs in comp:
+            if not has_fact(te, cs.bb, lambda c: c[0] == "field" and c[2] == "should_compress", True):
+                errs.append("compress is not conditional on the compression switch")
     out.append(inst("RN", "%s:RN3:order" % fn.npath, VIOLATION if errs else OK, fn, None,
                     "; ".join(errs) if errs else "trim, compress (if enabled), trim, unique_or"))
     # who may hand an element list to unique_or (sort + sign + intern, *no* trimming or compression):
